@@ -4,7 +4,8 @@
 (*   [k |-> "str", toks |-> set of [t, c]]  a string made of tokens t in   *)
 (*                                          case c ("l" / "u")              *)
 (*   [k |-> "int"], [k |-> "null"], [k |-> "list"]   non-string values     *)
-(* A rule is [rx |-> [t, c] (t = "" : no / empty regex), ic |-> BOOLEAN,   *)
+(* A rule is [rx |-> [t, c, t2] (t = "" : no / empty regex; t2 # "" : two  *)
+(* adjacent tokens), ic |-> BOOLEAN,                                       *)
 (* hs |-> BOOLEAN (has select_keys), sk |-> sequence of keys].             *)
 (* The regex engine itself is not modelled: a regex is one literal token.  *)
 (***************************************************************************)
@@ -14,7 +15,10 @@ SeqSet(sq) == {sq[i] : i \in 1..Len(sq)}
 Keys(e) == DOMAIN e.data \ {"_"}
 IsStr(v) == v.k = "str"
 \* the regex (a literal token) is found in the string, case-insensitively if asked
-Contains(v, rx, ic) == \E w \in SeqSet(v.toks) : w.t = rx.t /\ (ic \/ w.c = rx.c)
+\* rx.t2 # "": the regex is  <t> whitespace <t2>  - the two tokens adjacent, in this order, inside this one value
+TokMatch(w, t, c, ic) == w.t = t /\ (ic \/ w.c = c)
+Contains(v, rx, ic) == IF rx.t2 = "" THEN \E w \in SeqSet(v.toks) : TokMatch(w, rx.t, rx.c, ic)
+                       ELSE \E i \in 1..(Len(v.toks) - 1) : TokMatch(v.toks[i], rx.t, rx.c, ic) /\ TokMatch(v.toks[i + 1], rx.t2, rx.c, ic)
 Selected(rule, e) == IF rule.hs /\ rule.sk # <<>>
                      THEN {e.data[k] : k \in SeqSet(rule.sk) \cap Keys(e)}      \* missing keys select nothing
                      ELSE {e.data[k] : k \in Keys(e)}
